@@ -2,7 +2,7 @@
 From Coq Require Import List NArith Arith Bool Lia.
 From SNT Require Import Base.Outcome Automata.DfaData Automata.DfaDataProofs Automata.Tokenizer
   Automata.TokenizerRun Automata.TokenizerMunch Automata.TokenizerTheorems Automata.Reach
-  Automata.ReachProofs Decoder.Payload Decoder.PayloadProofs Decoder.TermSizeProofs Decoder.Events
+  Automata.ReachProofs Decoder.Payload Decoder.PayloadProofs Decoder.TermSizeProofs Decoder.TermcapProofs Decoder.Events
   Decoder.EventsProofs.
 Import ListNotations.
 Local Open Scope N_scope.
@@ -125,20 +125,19 @@ End Wrapper.
 Section Main.
   Variable d : dfa.
   Variables ids modes statuses : list N.
-  Variables VL VT : cert.
-  Hypothesis Hcerts : certs_ok d ids VL VT = true.
+  Variables VL VT VC : cert.
+  Hypothesis Hcerts : certs_ok d ids VL VT VC = true.
 
   Notation payload := (payload_at ids modes statuses).
   Notation item := (item_of payload d).
   Notation run := (run N (d_start d) (d_delta d)).
 
-  Definition hex_only (it : pitem) : Prop :=
-    match it with IPanic site => site = site_hex_pair | _ => True end.
+  Definition no_panic (it : pitem) : Prop :=
+    match it with IPanic _ => False | _ => True end.
 
-  (* the item of every token was computed on an accepted string; none is a panic
-     (hex_decode's pair[1] in the XTGETTCAP decoder left open) *)
+  (* the item of every token was computed on an accepted string; none is a panic *)
   Lemma munch_items_ok (s : list N) :
-    Forall (fun t => match t with TItem it _ => hex_only it | TRaw _ => True end)
+    Forall (fun t => match t with TItem it _ => no_panic it | TRaw _ => True end)
            (fst (t_munch d payload s)).
   Proof.
     pose proof (Munch_items N pitem (d_start d) (d_delta d) (d_accepting d) (d_terminal d) item _ _ _
@@ -146,7 +145,7 @@ Section Main.
     unfold t_munch. eapply Forall_impl; [|exact H]. intros t [(q & Hq & Ha & Ht)|Ht].
     - rewrite Ht. unfold mk_tok. destruct (item q (span t)) as [it|] eqn:E; [|exact I].
       destruct it as [e|e|site]; try exact I. cbn.
-      apply (item_no_panic d ids modes statuses VL VT Hcerts _ _ Hq Ha site E).
+      apply (item_no_panic d ids modes statuses VL VT VC Hcerts _ _ Hq Ha site E).
     - rewrite Ht. exact I.
   Qed.
 
@@ -156,7 +155,7 @@ Section Main.
       tty_feed d payload fuel (t_init d) chunks = Ok (fst (t_munch d payload (concat chunks)), s') /\
       sbuf s' = snd (t_munch d payload (concat chunks)) /\
       tty_decode d payload s' [] = Ok (s', None, []) /\
-      Forall (fun t => match t with TItem it _ => hex_only it | TRaw sp => sp <> [] end)
+      Forall (fun t => match t with TItem it _ => no_panic it | TRaw sp => sp <> [] end)
              (fst (t_munch d payload (concat chunks))).
   Proof.
     intros Hf.
@@ -183,10 +182,10 @@ Section Main.
   (* candidates that are later replaced were computed without a panic too *)
   Theorem calls_total (s : st N pitem) b q' w site :
     Inv N pitem (d_start d) (d_delta d) (d_accepting d) (d_terminal d) item s ->
-    call_of d s b = Some (q', w) -> item q' w = Some (IPanic site) -> site = site_hex_pair.
+    call_of d s b = Some (q', w) -> item q' w <> Some (IPanic site).
   Proof.
-    intros HI Hc E. destruct (call_accepted d ids modes statuses s b q' w HI Hc) as [Hq Ha].
-    apply (item_no_panic d ids modes statuses VL VT Hcerts _ _ Hq Ha site E).
+    intros HI Hc. destruct (call_accepted d ids modes statuses s b q' w HI Hc) as [Hq Ha].
+    apply (item_no_panic d ids modes statuses VL VT VC Hcerts _ _ Hq Ha site).
   Qed.
 End Main.
 
